@@ -1,4 +1,5 @@
 import BigtoolsModel.FileOf
+import BigtoolsModel.OverlapsGen
 import BigtoolsModel.BlockSpan
 import BigtoolsModel.PyBase
 import BigtoolsModel.Cache
@@ -69,3 +70,14 @@ theorem C03_bedgraph_section_query (l : List Nat) (o size chrom qs qe : Nat) (it
   decode1 l o size chrom qs qe items hc hn hv h
 
 end BBI
+
+namespace RT
+
+/-- **The code's own pruning predicate.** `Gen.overlaps` is regenerated from the Rust source of `overlaps` (and of the
+    functions it calls) in bbiread.rs on every run; for all arguments it is the `ov` with which the search theorems
+    of bigWig range queries are stated. A change to the source that alters the predicate breaks this obligation. -/
+theorem C03_source_overlaps_is_the_models_ov (q qs qe b1 b1s b2 b2e : Nat) :
+    Gen.overlaps q qs qe b1 b1s b2 b2e = ov ⟨q, qs⟩ ⟨q, qe⟩ ⟨b1, b1s⟩ ⟨b2, b2e⟩ :=
+  gen_overlaps_eq_ov q qs qe b1 b1s b2 b2e
+
+end RT
